@@ -113,10 +113,11 @@ def Atoms.deleteNorm (a : Atoms) (idx : List Int) : Except Err Atoms :=
 
 /-! ### subset with any integers (`np.take`) -/
 
-/-- `a[idx]` for a non-empty list of python integers (a scalar `a[i]` is `a[[i]]`: `np.array(i, ndmin=1)`) -/
+/-- `a[idx]` for any list of python integers (a scalar `a[i]` is `a[[i]]`: `np.array(i, ndmin=1)`).  The EMPTY
+    selection `a[[]]` / `a[()]` is the atom-less subset that keeps the atom type tables and the cell (since the fix of
+    the empty-selection TypeError; an atom-less `Atoms` keeps its tables since 84d3f69). -/
 def Atoms.getitemI (a : Atoms) (idx : List Int) : Except Err Atoms :=
-  if idx.isEmpty then .error .domain
-  else if idx.any (fun i => (normIdx a.atoms.length i).isNone) then .error .index
+  if idx.any (fun i => (normIdx a.atoms.length i).isNone) then .error .index
   else .ok { Atoms.empty with
     atoms := idx.filterMap (fun i => (normIdx a.atoms.length i).bind (fun j =>
       (a.atoms[j]?).map (fun r => { r with extra := [] })))
